@@ -1,10 +1,15 @@
 """
 C02 — encoding produces the canonical FM-94 bit stream for the given values.
 
-Theorems: lean/BufrModel/Props/C02.lean (width rule of nbits_for_uint, the column written by the
-encoder satisfies the relation Spec.ColOK, ColOK <-> some legal width, ColOK columns decode to the
-column), Props/C02Packing.lean (F/X/Y packing of section 3).
-Tie: `Encoder().process(json)` against the model encoder (`enc-data`) on
+Theorems: lean/BufrModel/Props/C02Canon.lean (C02_data_bits_canonical: encodeData = Spec.canonDataBits, the
+concatenation of the declarative field / column codes along the flat FM-94 reading, both directions;
+characterisations of the codes), Props/C02Message.lean (C02_message_canonical: the bytes of Encoder.process =
+Spec.canonMessageBits for editions 2-4 with / without section 2; sections 3, 4, 5 spelled out),
+Props/C02.lean (width rule of nbits_for_uint, the column written by the encoder satisfies the relation
+Spec.ColOK, ColOK <-> some legal width, ColOK columns decode to the column), Props/C02Packing.lean (F/X/Y
+packing of section 3).
+Tie: `Encoder().process(json)` against the model encoder (`enc-data`) AND against the specification alone
+(`canon-bits`: data bits, section 4, whole message; a quarter of the cases also with a section 2) on
   (a) templates of the shared grammar (levels 0-2: elements, sequences, nested fixed / delayed
       replication, operators 201-208 / 221, bitmap constructs) with values from the model's generate
       mode, 1-6 subsets, compressed and not, editions 2, 3, 4;
@@ -37,20 +42,51 @@ PROP = 'C02'
 
 META = dict(
     claimed=True,
-    text='Kernel-checked theorems about the Lean model of the encoder: the width rule of nbits_for_uint (least width whose '
-         'all-ones pattern stays free, never 0), every numeric / code / flag column the encoder writes satisfies the FM-94 '
-         'relation ColOK (w-bit minimum, 6-bit width d, increments = entry - minimum, all ones exactly for missing, d = 0 '
-         'exactly when the encoder saw all entries equal), ColOK is equivalent to "the specification column of some legal width" '
-         'and forces what any reader gets back, descriptor F/X/Y packing is 2/6/8 bits and invertible (refused, not truncated, '
-         'when a part does not fit); the uncompressed field concatenation is the walk of the model (shared with C01/C03). '
-         'Correspondence: Encoder().process bytes against the model encoder and an independently assembled whole message, byte '
-         'for byte, on generated templates of every construct (1-6 subsets, compressed or not, editions 2-4) and on hand-built '
-         'columns (missing next to equal, all equal, all missing, 1-bit, 64-bit, negative references, short/long strings); '
-         'oracle evaluated on the implementation bytes alone (model decoder + raw column parser).',
-    technique='Lean 4 theorems (bit arithmetic, induction over columns / descriptor lists) + checked model/implementation correspondence + bytes-only oracle',
-    note='A disagreement with the model whose bytes still satisfy the oracle is another legal encoding and is reported as '
-         'no-failing-input-found. Strings that differ only in trailing blanks are "different" for the encoder (width != 0); '
-         'the oracle follows the encoder\'s notion of equality (notes/C02.md).',
+    text='Kernel-checked theorems about the Lean model of the encoder, at whole-message strength. '
+         'DATA SECTION (Props/C02Canon.lean): C02_data_bits_canonical — for every table group, every descriptor list the '
+         'implementation can build (WFflat), every list of value lists, any number of subsets, compressed or not, the bits of '
+         'encodeData(build(ids)) EQUAL Spec.canonDataBits (Spec/CanonBits.lean) as an Option: the concatenation, along the flat '
+         'FM-94 reading of the descriptor list (Spec.flatWalk: replication by counting, sequences replaced by their rows, operators '
+         'on the registers), of the declarative field codes fieldCode (numeric: round_half_even(value*10^scale) - reference in '
+         'binary on the width in force, missing = all ones; code/flag/associated/skipped: unsigned on their width; strings padded '
+         'with blanks / truncated, missing = 0xFF octets; 203 new references sign-and-magnitude), per subset, subsets concatenated '
+         '- resp. of the column codes colCode (all equal: field + zero count; else least raw value on the field width, 6-bit '
+         'increment width = least width leaving all ones free above max-min+1, increments, all ones = missing; strings: NUL base, '
+         'octet count, fields). Both directions: the encoder refuses exactly when the specification assigns no stream '
+         '(C02_encoder_accepts_iff); fieldCode/colCode are characterised outright (C02_numeric_code_iff, C02_uint_code_iff, '
+         'C02_chars_code_iff, C02_newref_code_iff, C02_int_column_code_iff, C02_scaledRound_spec, C02_incrWidth_least, '
+         'C02_emit_step, C02_emit_refused_iff): a value has no code exactly when it is out of range for the width in force or of the '
+         'wrong kind; the bits are explicitly the concatenation of one field code per supplied value, in order, subset by subset, resp. '
+         'of one column code per flat position (Props/C02Trace.lean: C02_subset_is_concatenation, C02_data_is_concatenation, '
+         'C02_compressed_is_concatenation). On the columns the property quantifies over the column code satisfies the relation ColOK '
+         '(C02_column_code_colOK -> C02_column_canonical, C02_colOK_decodes). The proof: encPrimsU = canonPrimsU and '
+         'encPrimsC = canonPrimsC (Lemmas/CanonBits*.lean), C01_flat_eq_tree (tree walk = flat reading for all primitives), '
+         'encodeSubset_pre (subsets independent). '
+         'WHOLE MESSAGE (Props/C02Message.lean): C02_message_canonical — for editions 2, 3, 4, with and without section 2, all '
+         'section values and any data bits, the bytes of the model of Encoder.process (lengths recomputed) EQUAL '
+         'Spec.canonMessageBits (Spec/CanonMessage.lean): sections 0-5 per the regenerated section definitions, every parameter in '
+         'binary on its width, section 3 = reserved octet, subset count, flags and the 2/6/8-bit packing of the unexpanded '
+         'descriptors (C02_section3_canonical, C02_descriptors_code, C02_descriptor_list_packing), section 4 = 4 octets header + '
+         'data bits + zero padding (C02_section4_canonical), padding to whole octets / to an even number of octets for editions '
+         '<= 3 (C02_section_padding), section lengths in the first three octets, total length in octets 5-7, the stop signature '
+         'last (C02_section5_canonical); C02_message_data_canonical composes both. The closed facts about the regenerated layouts '
+         '(C02_bundled_layouts_ok, C02_bundled_sections_345) are re-decided by the kernel on every run. '
+         'COLUMNS / PACKING (Props/C02.lean, C02Packing.lean): width rule of nbits_for_uint, ColOK, F/X/Y packing invertible. '
+         'Correspondence: Encoder().process bytes against (1) the model encoder, (2) an independently assembled whole message and '
+         '(3) the bits and the whole message computed from the SPECIFICATION alone (driver op canon-bits: Spec.canonDataBits, '
+         'canonSection4, canonMessageBits - no encoder code involved; a quarter of the cases also with section 2), byte for byte, on '
+         'generated templates of every construct (1-6 subsets, compressed or not, editions 2-4) and on hand-built columns (missing '
+         'next to equal, all equal, all missing, 1-bit, 64-bit, negative references, short/long strings); oracle evaluated on the '
+         'implementation bytes alone (model decoder + raw column parser).',
+    technique='Lean 4 theorems (equality of the encoder primitives with declarative code-writing primitives, flat-reading = tree-walk, '
+              'symbolic evaluation of the section loop on the regenerated layouts, bit arithmetic) + checked model/implementation '
+              'correspondence incl. a specification-only third stream + bytes-only oracle',
+    note='The specification follows the implementation where it is laxer than FM-94 and the property does not quantify: in a compressed '
+         'column whose subsets differ only the minimum has to fit the field (a larger entry is carried by the increments: '
+         'C02_compressed_carries_out_of_range); a raw value equal to all ones is written as it is (reads back missing); a decimal for a '
+         'scale-0 field is outside the modelled domain. A disagreement with the model / the specification whose bytes still satisfy '
+         'the oracle is another legal encoding and is reported as no-failing-input-found. Strings that differ only in trailing blanks '
+         'are "different" for the encoder (width != 0); the oracle follows the encoder\'s notion of equality (notes/C02.md).',
 )
 
 CHUNK = 250
@@ -237,7 +273,7 @@ class Special(object):
 def failure_of(r):
     if r.oracle:
         return 'oracle'
-    if r.why_model:
+    if r.why_model or r.why_spec:
         return 'model'
     return None
 
@@ -275,6 +311,12 @@ def run_chunk(args):
         out['cases'].append((obj, nontriv))
         out['traces'] += 1
         count(kind)
+        if r.spec is not None and 'bits' in r.spec and not r.why_spec:
+            count('spec:section4-identical')
+            if r.spec.get('msg'):
+                count('spec:whole-message-identical')
+            if r.spec.get('with_section2'):
+                count('spec:whole-message-with-section2-identical')
         count('compressed' if c.comp else 'uncompressed')
         count('edition-%d' % c.edition)
         count('subsets-%d' % c.n)
@@ -321,11 +363,14 @@ def describe(r):
         sig = {'stage': 'oracle', 'kind': kind, 'compressed': bool(c.comp)}
         what = 'oracle (%s): %s; ids %s, %d subset(s), %s' % (kind, text, c.ids[:30], c.n, 'compressed' if c.comp else 'uncompressed')
         return what, rep, sig, False
-    rep['why'] = r.why_model
-    stage = r.why_model.split(' differ')[0].split(':')[0][:40]
-    sig = {'stage': 'model', 'what': stage, 'compressed': bool(c.comp)}
-    what = ('implementation and model encoder disagree but the bytes satisfy the oracle (another legal encoding): %s; ids %s'
-            % (r.why_model, c.ids[:30]))
+    why = r.why_model or r.why_spec
+    rep['why'] = why
+    if r.why_spec:
+        rep['why_spec'] = r.why_spec
+    stage = why.split(' differ')[0].split(':')[0][:40]
+    sig = {'stage': 'model' if r.why_model else 'spec', 'what': stage, 'compressed': bool(c.comp)}
+    what = ('implementation and %s disagree but the bytes satisfy the oracle (another legal encoding): %s; ids %s'
+            % ('model encoder' if r.why_model else 'specification bits', why, c.ids[:30]))
     return what, rep, sig, True
 
 
@@ -364,7 +409,7 @@ def replay(ctx, path):
                 rep['values'], rep.get('expect'), kind=rep.get('kind', 'generated'))
     r = E.evaluate_encode(drv, treq, [c])[0]
     fail = failure_of(r)
-    print('replay:', (r.oracle[1] if r.oracle else r.why_model) if fail else 'implementation, model and oracle agree')
+    print('replay:', (r.oracle[1] if r.oracle else (r.why_model or r.why_spec)) if fail else 'implementation, model, specification and oracle agree')
     if fail:
         what, rep2, sig, nfi = describe(r)
         ctx.violation(what, rep2, signature=sig, no_failing_input=nfi)
